@@ -4,6 +4,81 @@ use crate::{GenerateConfig, TypeStructure};
 use serde::{Deserialize, Serialize};
 use serde_rename_rule::RenameRule;
 
+/// Words that cannot be used as a function name in an ES module
+const RESERVED_WORDS: &[&str] = &[
+    "await",
+    "break",
+    "case",
+    "catch",
+    "class",
+    "const",
+    "continue",
+    "debugger",
+    "default",
+    "delete",
+    "do",
+    "else",
+    "enum",
+    "export",
+    "extends",
+    "false",
+    "finally",
+    "for",
+    "function",
+    "if",
+    "implements",
+    "import",
+    "in",
+    "instanceof",
+    "interface",
+    "let",
+    "new",
+    "null",
+    "package",
+    "private",
+    "protected",
+    "public",
+    "return",
+    "static",
+    "super",
+    "switch",
+    "this",
+    "throw",
+    "true",
+    "try",
+    "typeof",
+    "var",
+    "void",
+    "while",
+    "with",
+    "yield",
+];
+
+/// Turn a computed name into a legal TypeScript identifier: characters that cannot appear in an
+/// identifier become `_`, an empty name or a leading digit gets a `_` prefix and reserved words
+/// get a `_` suffix. Names that are already identifiers are returned unchanged.
+fn to_ts_identifier(name: &str) -> String {
+    let mut identifier: String = name
+        .chars()
+        .map(|c| {
+            if c.is_ascii_alphanumeric() || c == '_' || c == '$' {
+                c
+            } else {
+                '_'
+            }
+        })
+        .collect();
+
+    if identifier.is_empty() || identifier.starts_with(|c: char| c.is_ascii_digit()) {
+        identifier.insert(0, '_');
+    }
+    if RESERVED_WORDS.contains(&identifier.as_str()) {
+        identifier.push('_');
+    }
+
+    identifier
+}
+
 /// Trait for contexts that provide naming convention functionality
 pub trait NamingContext {
     /// Get the config reference
@@ -12,12 +87,16 @@ pub trait NamingContext {
     /// Convert an event name to a TypeScript event listener function name
     /// Example: "user_login" -> "onUserLogin", "user-login" -> "onUserLogin"
     fn event_name_to_function(&self, event_name: &str) -> String {
-        // Normalize kebab-case to snake_case since serde_rename_rule expects snake_case
-        let normalized = event_name.replace('-', "_");
-        format!(
+        // Normalize kebab-case (and the other separators Tauri allows in event names, ':' and '/')
+        // to snake_case since serde_rename_rule expects snake_case
+        let normalized: String = event_name
+            .chars()
+            .map(|c| if c.is_alphanumeric() { c } else { '_' })
+            .collect();
+        to_ts_identifier(&format!(
             "on{}",
             self.apply_naming_convention(&normalized, RenameRule::PascalCase)
-        )
+        ))
     }
 
     /// Apply serde naming convention transformations
@@ -85,7 +164,8 @@ pub trait NamingContext {
     fn compute_function_name(&self, name: &str, _rename_all: &Option<RenameRule>) -> String {
         // Always use TypeScript conventions (camelCase for functions)
         // Command-level rename_all doesn't affect the function name
-        self.apply_naming_convention(name, RenameRule::CamelCase)
+        let name = name.strip_prefix("r#").unwrap_or(name);
+        to_ts_identifier(&self.apply_naming_convention(name, RenameRule::CamelCase))
     }
 
     /// Compute the TypeScript type name (PascalCase)
@@ -95,7 +175,8 @@ pub trait NamingContext {
     fn compute_type_name(&self, name: &str, _rename_all: &Option<RenameRule>) -> String {
         // Always use TypeScript conventions (PascalCase for types)
         // Command-level rename_all doesn't affect the type name
-        self.apply_naming_convention(name, RenameRule::PascalCase)
+        let name = name.strip_prefix("r#").unwrap_or(name);
+        to_ts_identifier(&self.apply_naming_convention(name, RenameRule::PascalCase))
     }
 }
 
